@@ -30,6 +30,9 @@ LazyAbove(k) == {d \in LazyDirs : Under(k, d)}
 (************************ reference results (functions of T) ****************)
 RefGet(k) == IF k \in Keys THEN [found |-> TRUE, isdir |-> IsDirKey[k]] ELSE [found |-> FALSE, isdir |-> FALSE]
 RefIter(prefix) == IF prefix = Root THEN Keys ELSE {k \in Keys : UnderEq(k, prefix)}
+\* shallow iteration stops at the first key that carries an entry on every path: the prefix itself, or - from the root,
+\* which carries none - the top-level keys
+RefIterShallow(prefix) == IF prefix = Root THEN Children(Root) ELSE {prefix}
 RefLs(k) == Children(k)
 RefView(f) == FilterKeys[f]
 RefViewLs(f, k) == Children(k) \cap FilterKeys[f]
@@ -40,6 +43,8 @@ LoadsGet(k) == LazyAbove(k)
 LoadsLs(k) == LazyAbove(k) \cup (IF k \in LazyDirs THEN {k} ELSE {})
 \* iteritems expands the directory holding the prefix and every lazy directory it yields
 LoadsIter(prefix) == {d \in LazyDirs : prefix = Root \/ UnderEq(d, prefix) \/ Under(prefix, d) \/ prefix = d}
+\* ... shallow: the directory holding the prefix and the lazy directories it yields, nothing below them
+LoadsIterShallow(prefix) == {d \in LazyDirs : Under(prefix, d)} \cup (RefIterShallow(prefix) \cap LazyDirs)
 \* a view expands the lazy directories its filter accepts (and, through them, nothing else)
 LoadsView(f) == LazyDirs \cap FilterKeys[f]
 
@@ -52,7 +57,8 @@ Do(name, args, res, lds) ==
 
 Get(k)        == Do("Get", <<k>>, [kind |-> "get", r |-> RefGet(k)], IF k \in Keys THEN LoadsGet(k) ELSE {d \in LazyDirs : Under(k, d)})
 Info(k)       == Do("Info", <<k>>, [kind |-> "get", r |-> RefGet(k)], LoadsGet(k))
-Iter(p, sh)   == Do("Iter", <<p, sh>>, [kind |-> "keys", r |-> RefIter(p)], LoadsIter(p))
+Iter(p, sh)   == Do("Iter", <<p, sh>>, [kind |-> "keys", r |-> IF sh THEN RefIterShallow(p) ELSE RefIter(p)],
+                    IF sh THEN LoadsIterShallow(p) ELSE LoadsIter(p))
 Ls(k)         == Do("Ls", <<k>>, [kind |-> "keys", r |-> RefLs(k)], LoadsLs(k))
 ViewIter(f)   == Do("ViewIter", <<f>>, [kind |-> "keys", r |-> RefView(f)], LoadsView(f))
 ViewLs(f, k)  == Do("ViewLs", <<f, k>>, [kind |-> "keys", r |-> RefViewLs(f, k)], LoadsLs(k))
